@@ -52,6 +52,13 @@ def lcov_part(chk):
             if b:
                 b[rng.randrange(len(b))] = rng.randrange(256)
         cases.append(("random", name, bytes(b)))
+    # every single-byte substitution by a hostile byte at every position of the two smallest corpus files
+    for name, data in sorted(corpus, key=lambda x: len(x[1]))[:2]:
+        data = data[:300]
+        for pos in range(len(data)):
+            for b in (0x00, 0x0a, 0x0d, 0x2c, 0x3a, 0x2d, 0x80, 0xbf, 0xc3, 0xff):
+                if data[pos] != b:
+                    cases.append(("byte", name, data[:pos] + bytes([b]) + data[pos + 1:]))
     jcases = [{"hex": d.hex(), "branch": (i % 2 == 0)} for i, (_, _, d) in enumerate(cases)]
     impl = vlib.run_impl("lcov", jcases, chk.pid, parallel=8, case_timeout=6)
     classes = {}
@@ -116,7 +123,7 @@ def run(chk):
     chk.extra["part_wall_s"] = walls
     chk.extra["parts"] = parts
     chk.cov["rule"] = ("per reader: every prefix (truncation point) of every corpus file (repo fixtures + generated valid files), every single-token substitution by boundary tokens "
-                       "(text formats) / every single 32-bit word substitution by boundary values (gcno/gcda), plus seeded multi-point corruptions; each through the real reader "
+                       "(text formats) / every single 32-bit word substitution by boundary values (gcno/gcda), every single-byte substitution by hostile bytes (NUL, separators, UTF-8 continuation and lead bytes, 0xFF) at every position of small text files, plus seeded multi-point corruptions; each through the real reader "
                        "under catch_unwind with per-case timing: outcome must be a result or an error within the time limit; a sample is also evaluated by the Gallina reader "
                        "model and must agree on the outcome class; non-trivial = distinct input that ended in Ok/Err; exhaustive over the listed corpus for prefixes")
     chk.cov["trusted_base"] = ["Coq kernel; vm_compute", "impl_run harness (catch_unwind, per-case timing)", "release-mode arithmetic semantics",
